@@ -1,7 +1,7 @@
 (* C05_Mat.v — finite sums and index-function matrices over R (own copy for C05/C06). *)
 From Coq Require Import Reals Lra Lia Arith List Permutation.
 Import ListNotations.
-Open Scope R_scope.
+Local Open Scope R_scope.
 
 Fixpoint sumf (n : nat) (f : nat -> R) : R := match n with O => 0 | S m => sumf m f + f m end.
 
